@@ -5,7 +5,8 @@ package main
 // property only if nothing else writes that family. This check finds, on every run, every module function with a
 // store write of its own (an invoke of Set / Delete on a store interface), collects the key families it may write by
 // executing it with every repository callee inlined (familyEffects), and requires each writer of the family to be one
-// of the functions named here - all of which are under contract or are the genesis import.
+// of the functions named here - all of which are under contract or are the genesis import. The direct writers are small
+// setters; every call of such a setter (static call or bound method value) must come from a named function as well.
 
 import (
 	"fmt"
@@ -13,30 +14,40 @@ import (
 	"strings"
 	"sync"
 
+	"go/types"
+
 	"golang.org/x/tools/go/ssa"
 )
 
 type writerRule struct {
 	Family  string
-	Allowed []string // short function names
+	Allowed []string // short function names; a leading * marks a function whose callers must be named here as well
 }
 
-var writerRules = map[string][]writerRule{
-	"C03": {
-		{"LastObservedNonce", []string{"(Keeper).setLastObservedEventNonce", "(Keeper).TryEventVoteRecord", "InitGenesis"}},
-		{"LastNonceByVal", []string{"(Keeper).setLastEventNonceByValidator", "(Keeper).recordEventVote", "InitGenesis"}},
-	},
-	"C02": {
-		{"LastNonceByVal", []string{"(Keeper).setLastEventNonceByValidator", "(Keeper).recordEventVote", "InitGenesis"}},
-	},
-	"C17": {
-		{"ValExt", []string{"(Keeper).setValidatorExternalAddress", "(msgServer).SetDelegateKeys", "InitGenesis"}},
-		{"OrchVal", []string{"(Keeper).SetOrchestratorValidatorAddress", "(msgServer).SetDelegateKeys", "InitGenesis"}},
-		{"ExtOrch", []string{"(Keeper).setExternalOrchestratorAddress", "(msgServer).SetDelegateKeys", "InitGenesis"}},
-	},
-	"C13": {
-		{"LastExtHeight", []string{"(Keeper).SetLastObservedExternalBlockHeight", "(Keeper).TryEventVoteRecord", "InitGenesis"}},
-	},
+var writerRules = map[string][]writerRule{}
+
+func init() {
+	add := func(props []string, fam string, allowed ...string) {
+		for _, p := range props {
+			writerRules[p] = append(writerRules[p], writerRule{fam, allowed})
+		}
+	}
+	gen := "InitGenesis"
+	add([]string{"C03"}, "LastObservedNonce", "*(Keeper).setLastObservedEventNonce", "(Keeper).TryEventVoteRecord", gen)
+	add([]string{"C02", "C03"}, "LastNonceByVal", "*(Keeper).setLastEventNonceByValidator", "(Keeper).recordEventVote", gen)
+	add([]string{"C13"}, "LastExtHeight", "*(Keeper).SetLastObservedExternalBlockHeight", "(Keeper).TryEventVoteRecord", gen)
+	add([]string{"C17"}, "ValExt", "*(Keeper).setValidatorExternalAddress", "(msgServer).SetDelegateKeys", gen)
+	add([]string{"C17"}, "OrchVal", "*(Keeper).SetOrchestratorValidatorAddress", "(msgServer).SetDelegateKeys", gen)
+	add([]string{"C17"}, "ExtOrch", "*(Keeper).setExternalOrchestratorAddress", "(msgServer).SetDelegateKeys", gen)
+	add([]string{"C04"}, "LastSteID", "*(Keeper).incrementLastSendToExternalIDKey", "(Keeper).createSendToExternal")
+	add([]string{"C10"}, "LastBatchNonce", "*(Keeper).setLastOutgoingBatchNonce", "*(Keeper).incrementLastOutgoingBatchNonce", "*(Keeper).SetLastOutgoingBatchNonce", "(Keeper).BuildBatchTx", gen)
+	add([]string{"C09"}, "LatestSSNonce", "*(Keeper).incrementLatestSignerSetTxNonce", "*(Keeper).SetLatestSignerSetTxNonce", "(Keeper).CreateSignerSetTx")
+	add([]string{"C09"}, "LastObservedSS", "*(Keeper).setLastObservedSignerSetTx", "(ExternalEventProcessor).Handle", gen)
+	add([]string{"C04", "C12"}, "TxStatusF", "*(Keeper).SetTxStatus", "(ExternalEventProcessor).Handle", "(Keeper).BuildBatchTx", "(Keeper).batchTxExecuted", "(Keeper).cancelSendToExternal")
+	add([]string{"C19"}, "TxFeeRecordF", "*(Keeper).SetTxFeeRecord", "(Keeper).batchTxExecuted")
+	add([]string{"C18"}, "OEpoch", "*(Keeper).setCurrentEpoch", "(Keeper).ProcessCurrentEpoch", gen)
+	add([]string{"C18"}, "OPrices", "*(Keeper).storePrices", "(AttestationHandler).Handle", gen)
+	add([]string{"C18"}, "OHolders", "*(Keeper).storeHolders", "(AttestationHandler).Handle", gen)
 }
 
 func hasOwnStoreWrite(fn *ssa.Function) bool {
@@ -76,7 +87,7 @@ func writerSetCheck(l *Loaded, prop string) []*OblReport {
 	}
 	var cands []*ssa.Function
 	for _, fn := range moduleFunctions(l) {
-		if strings.Contains(fn.Pkg.Pkg.Path(), "/x/mhub2") && hasOwnStoreWrite(fn) {
+		if hasOwnStoreWrite(fn) {
 			cands = append(cands, fn)
 		}
 	}
@@ -97,10 +108,14 @@ func writerSetCheck(l *Loaded, prop string) []*OblReport {
 	wg.Wait()
 	var reps []*OblReport
 	for _, r := range rules {
-		rep := &OblReport{Name: fmt.Sprintf("%s/F/writers/%s", prop, r.Family), Kind: fmt.Sprintf("writer-set: of %d module functions with a store write of their own, only %s write %s", len(cands), strings.Join(r.Allowed, ", "), r.Family), Func: "module x/mhub2", Solver: "effects", Status: "discharged"}
+		rep := &OblReport{Name: fmt.Sprintf("%s/F/writers/%s", prop, r.Family), Kind: fmt.Sprintf("writer-set: of %d module functions with a store write of their own, only %s write %s", len(cands), strings.ReplaceAll(strings.Join(r.Allowed, ", "), "*", ""), r.Family), Func: "module x/mhub2", Solver: "effects", Status: "discharged"}
 		allowed := map[string]bool{}
+		setters := map[string]bool{}
 		for _, a := range r.Allowed {
-			allowed[a] = true
+			if strings.HasPrefix(a, "*") {
+				setters[a[1:]] = true
+			}
+			allowed[strings.TrimPrefix(a, "*")] = true
 		}
 		var bad, undecided []string
 		seenAllowed := 0
@@ -126,6 +141,35 @@ func writerSetCheck(l *Loaded, prop string) []*OblReport {
 			}
 			if o.writes[r.Family] {
 				bad = append(bad, fmt.Sprintf("%s (%s)", name, l.prog.Fset.Position(o.fn.Pos())))
+			}
+		}
+		// call graph: the direct writers are small setters; whoever calls one of them writes the family too
+		for _, fn := range moduleFunctions(l) {
+			top := fn
+			for top.Parent() != nil {
+				top = top.Parent()
+			}
+			if allowed[shortFuncName(top)] {
+				continue
+			}
+			for _, b := range fn.Blocks {
+				for _, in := range b.Instrs {
+					var callee *ssa.Function
+					switch v := in.(type) {
+					case ssa.CallInstruction:
+						callee = v.Common().StaticCallee()
+					case *ssa.MakeClosure:
+						callee, _ = v.Fn.(*ssa.Function) // a bound method value of a setter
+						if callee != nil && callee.Synthetic != "" && callee.Object() != nil {
+							if f := l.prog.FuncValue(callee.Object().(*types.Func)); f != nil {
+								callee = f
+							}
+						}
+					}
+					if callee != nil && callee.Blocks != nil && setters[shortFuncName(callee)] && isRepoFn(callee) {
+						bad = append(bad, fmt.Sprintf("%s through %s (%s)", shortFuncName(top), shortFuncName(callee), l.prog.Fset.Position(in.Pos())))
+					}
+				}
 			}
 		}
 		sort.Strings(bad)
